@@ -59,11 +59,24 @@ pub fn render(s: &TypeSpec) -> Option<Rendered> {
     let copy = s.has(Tr::Copy);
     let mut o = String::new();
     if s.kind == Kind::Union {
+        // value k was built by zeroing the storage and writing field `owner[k]`; a bitwise copy must read back the same
+        // field value (raw bytes are not compared: padding inside a field does not survive a typed copy)
+        let mut owner: Vec<&str> = Vec::new();
+        for f in &s.variants[0].fields {
+            for _ in &f.ty.vals {
+                owner.push(f.name.as_deref().unwrap());
+            }
+        }
+        o.push_str(&format!("pub fn read(x: &{ty}, k: usize) -> i64 {{\n    match k {{\n"));
+        for (k, f) in owner.iter().enumerate() {
+            o.push_str(&format!("        {k} => Key::key(unsafe {{ &x.{f} }}),\n"));
+        }
+        o.push_str("        _ => unreachable!(),\n    }\n}\n");
         o.push_str("pub fn run(o: &mut Out) {\n    let xs = vals();\n");
         o.push_str("    for (i, x) in xs.iter().enumerate() {\n        let c = x.clone();\n");
-        o.push_str("        o.check(bytes_of(&c) == bytes_of(x), || format!(\"clone of union value {i} is not a bitwise copy\"));\n");
+        o.push_str("        o.check(read(&c, i) == read(x, i), || format!(\"clone of union value {i} does not hold the written field\"));\n");
         o.push_str("        for (j, y) in xs.iter().enumerate() {\n            let mut a = vals().swap_remove(i);\n            a.clone_from(y);\n");
-        o.push_str("            o.check(bytes_of(&a) == bytes_of(y), || format!(\"clone_from({i} <- {j}) differs from the source bytes\"));\n            o.tally(\"clone_from_pairs\", 1);\n        }\n    }\n");
+        o.push_str("            o.check(read(&a, j) == read(y, j), || format!(\"clone_from({i} <- {j}) does not hold the source's field\"));\n            o.tally(\"clone_from_pairs\", 1);\n        }\n    }\n");
         if copy {
             o.push_str(&format!("    o.check(impls!({ty}: Copy), || \"Copy was educed but the type is not Copy\".to_string());\n"));
         }
